@@ -210,14 +210,14 @@ def _(tier, seed):
 
 
 @bounded("inline-image-data-all-short-strings", props=["C18"],
-         bound="quick: every data string of length <= 4 over {E, I, space, LF, x, NUL} that does not contain the end marker (white space + EI + white space), at BUFSIZ 4096 and (seeded third) 1..5, followed by an operator that must still execute; plus 300 random longer strings incl. lengths around 4096; thorough: length <= 6, all buffer sizes 1..8")
+         bound="quick: every data string of length <= 4 over {E, I, space, LF, x, NUL} that does not contain the end marker (white space + EI + white space), at BUFSIZ 4096 and (seeded third) 1..5, followed by an operator that must still execute; plus 300 random longer strings incl. lengths around 4096; thorough: length <= 5, all buffer sizes 1..8")
 def _(tier, seed):
     import io, itertools, random
     from specs.pdfgen import one_page_doc
     rng = random.Random(seed + 181)
     hl = real_module("pdfminer.high_level"); layout = real_module("pdfminer.layout"); PS = real_module("pdfminer.psparser")
     alpha = [b"E", b"I", b" ", b"\n", b"x", b"\x00"]
-    Lmax = 4 if tier == "quick" else 6
+    Lmax = 4 if tier == "quick" else 5
     sizes = [1, 2, 3, 5] if tier == "quick" else list(range(1, 9))
     saved = PS.PSBaseParser.BUFSIZ
     failures, evals, distinct = [], 0, 0
